@@ -32,6 +32,13 @@ Encoding (list of ints, identical on both sides; see obs_z / rec_z / observe in 
 Independent oracles (no use of the model): a Python shadow remembers, per task, what the last
 successful SaveOk / processed ResetDep observed (definition, checker, (mtime,size,content) of each
 file dep) and evaluates the conditions of C03 (and, for C04, their converse) on the live state.
+
+Histories: scripted + random over the whole alphabet + the family `utd-flip` (gen_flip: file deps AND uptodate
+items whose truth changes between runs; an edit of a file dep before a run in which an item is false -- get_status
+then leaves before it compares any file -- and afterwards the file put back to a version an EARLIER successful
+execution saw: stale, or rewritten/left so that the checker calls it unmodified w.r.t. the LAST one: unchanged),
+at the level of the operations on the three backends and as whole `doit run` command lines (explore_e2e).
+The first oracle finding of each shape is shrunk (shrink: greedy removal of operations, then of items of a definition).
 """
 import io, os, sys, hashlib, json
 import common
@@ -826,6 +833,267 @@ def scripted():
     return hs
 
 
+# ------------------------------------------------------------------ family 'utd-flip'
+# A task with file deps AND uptodate items whose truth changes between runs.  get_status leaves early,
+# with task.dep_changed == [], as soon as one item is false (dependency.py 661-663), i.e. BEFORE any
+# file dep is compared -- so the run that follows an edit made while an item is false is the only
+# place where the new state of the file can get recorded (save_success).  The family is
+#     S1   files written, definition set, successful execution recorded
+#     rounds (1-3):  some of  { edit of file deps,  an uptodate item becomes false }  in any order,
+#                    [Check], recording step (SaveOk | ResetDep | a whole `doit run` in the e2e form),
+#                    [the item becomes true again]
+#     final: one or more file deps are put back to a version they had at an EARLIER successful
+#            execution (md5: that content with a fresh / the old / another mtime;  timestamp: that content
+#            with the mtime it had then)  -> the task is stale;   or rewritten in a way the checker's rule
+#            calls unmodified w.r.t. the LAST successful execution / nothing at all  -> the task is unchanged
+#     Check (every item true, everything else unchanged)
+# Items that flip:  config_changed (value replaced by a definition change; true again once the run saved it),
+# bool / callable / shell command (replaced by a definition change, and back), run_once (added to the
+# definition: false until a run saved 'run-once'), result_dep (the other task executed again with another
+# result; true again once the run saved it).  FS-fresh by construction: every explicit mtime is used once
+# per history, or re-used with the content it had.
+FLIP_KINDS = ('config', 'call', 'bool', 'cmd', 'run_once', 'result_dep')
+
+
+def gen_flip(rng, ck, out, e2e=False, kind=None):
+    t = rng.randrange(NT)
+    kind = kind or rng.choice([k for k in FLIP_KINDS if not (e2e and k == 'result_dep')])
+    if e2e:        # restrictions of the end-to-end sample: file deps among files 0,1; file 2 a target of T0 only
+        fds = rng.sample([0, 1], rng.choice([1, 1, 2]))
+        tg = [2] if (t == 0 and rng.random() < 0.3) else []
+    else:
+        fds = rng.sample(range(NF), rng.choice([1, 1, 2, 2, 3]))
+        rest = [f for f in range(NF) if f not in fds]
+        tg = [rest[0]] if (rest and rng.random() < 0.25) else []
+    u = rng.choice([x for x in range(NT) if x != t])       # the task a result_dep item looks at
+    h = [('SetChecker', ck)]
+    st = dict(clock=1, k=0)
+    cur = {}                                                # f -> (mtime, content id)
+
+    def fresh_m():                                          # an explicit mtime never used before in this history
+        st['k'] += rng.randrange(1, 4)
+        return (100 + st['k']) * rng.choice([1, 1, -1])
+
+    def put(f, c, how, m=None):
+        if how == 'clock':
+            h.append(('Write', f, c)); cur[f] = (st['clock'], c); st['clock'] += 1
+        else:
+            h.append(('WriteAt', f, c, m)); cur[f] = (m, c)
+
+    def touch(f, m=None):
+        if m is None:
+            h.append(('Touch', f)); cur[f] = (st['clock'], cur[f][1]); st['clock'] += 1
+        else:
+            h.append(('TouchAt', f, m)); cur[f] = (m, cur[f][1])
+
+    for f in fds + tg:
+        if rng.random() < 0.5:
+            put(f, rng.randrange(5), 'clock')
+        else:
+            put(f, rng.randrange(5), 'at', fresh_m())
+    # the definition: the item that flips at a random place among items that stay true / are ignored
+    others = [rng.choice([('bool', True), ('call', True), ('none',), ('call', None), ('bool', True)]) for _ in range(rng.choice([0, 0, 1, 2]))]
+    pos = rng.randrange(len(others) + 1)
+    flip = dict(on=True, cfg=rng.randrange(3), present=(kind != 'run_once'), res=rng.randrange(4))
+
+    def item():
+        if kind == 'config':
+            return [('config', flip['cfg'])]
+        if kind in ('call', 'bool', 'cmd'):
+            return [(kind, flip['on'])]
+        if kind == 'run_once':
+            return [('run_once',)] if flip['present'] else []
+        return [('result_dep', u)]
+
+    def setdef():
+        h.append(('SetDef', t, D(fds, tg, others[:pos] + item() + others[pos:])))
+
+    def rec(allow_reset):
+        """the recording step; returns True when the item is true afterwards without a definition change"""
+        if e2e:
+            if allow_reset and rng.random() < 0.2:
+                h.append(('ResetDep', t)); return False
+            h.append(('Run', False, [(t, False)])); return True
+        r = rng.random()
+        if r < 0.6:
+            h.append(('Check', t))
+        elif r < 0.7:
+            h.append(('CheckLog', t))
+        if allow_reset and rng.random() < 0.25:
+            h.append(('ResetDep', t)); return False
+        h.append(('SaveOk', t)); return True
+
+    if kind == 'result_dep':
+        h.append(('SetDef', u, D([], [], [('bool', True)], result=flip['res'])))
+        h.append(('SaveOk', u))
+    setdef()
+    rec(False)
+    snaps = [dict((f, cur[f]) for f in fds)]                # what each successful execution saw
+    nrounds = rng.choice([1, 1, 2, 2, 3])
+    false_now = False                                       # a bool/call/cmd item left false by the previous round
+    for r in range(nrounds):
+        last = (r == nrounds - 1)
+        x = rng.random()
+        rk = 'flip+edit' if ((last and x < 0.75) or x < 0.5) else 'edit' if x < 0.8 else 'flip'
+        if kind == 'run_once' and flip['present'] and not false_now and rk != 'edit':
+            # run-once is saved: the item can be false again only after a run without it
+            flip['present'] = False; setdef(); rec(False); snaps.append(dict((f, cur[f]) for f in fds))
+        steps = []
+        if 'edit' in rk:
+            for f in rng.sample(fds, rng.randrange(1, len(fds) + 1)):
+                steps.append(('edit', f))
+        if 'flip' in rk and not false_now:
+            steps.append(('flip',))
+        rng.shuffle(steps)
+        for s in steps:
+            if s[0] == 'edit':
+                f = s[1]
+                if ck == 'ts' and rng.random() < 0.3:       # a touch is a modification for the timestamp checker
+                    touch(f, None if rng.random() < 0.5 else fresh_m())
+                else:
+                    c = rng.choice([c for c in CONTENT if c != cur[f][1]])
+                    if rng.random() < 0.5:
+                        put(f, c, 'clock')
+                    else:
+                        put(f, c, 'at', fresh_m())
+            elif kind == 'config':
+                flip['cfg'] = rng.choice([c for c in range(4) if c != flip['cfg']]); setdef()
+            elif kind in ('call', 'bool', 'cmd'):
+                flip['on'] = False; setdef()
+            elif kind == 'run_once':
+                flip['present'] = True; setdef()
+            else:
+                flip['res'] = rng.choice([c for c in range(4) if c != flip['res']])
+                h.append(('SetDef', u, D([], [], [('bool', True)], result=flip['res'])))
+                h.append(('SaveOk', u))
+        is_false = false_now or 'flip' in rk
+        out.count('flip-round:%s%s' % (rk, '+still-false' if false_now else ''))
+        # reset-dep does not run the value savers: only a bool/callable/command item can be put right after it
+        true_after = rec(allow_reset=(not is_false or kind in ('call', 'bool', 'cmd')))
+        snaps.append(dict((f, cur[f]) for f in fds))
+        false_now = False
+        if is_false and kind in ('call', 'bool', 'cmd'):
+            if not last and rng.random() < 0.3:
+                false_now = True                            # stays false for one more run
+            else:
+                flip['on'] = True; setdef()
+        elif is_false and not true_after:
+            raise AssertionError('gen_flip: item left false')
+        if not e2e and rng.random() < 0.15:
+            h.append(('Reopen',))
+    # ---- the final move
+    unmod = Shadow.unmodified
+    view = lambda v: (v[0], len(CONTENT[v[1]]), v[1])
+    lastsn = snaps[-1]
+    cands = {f: sorted(set(sn[f] for sn in snaps[:-1] if not unmod(ck, view(lastsn[f]), view(sn[f])))) for f in fds}
+    cands = {f: vs for f, vs in cands.items() if vs}
+    mode = rng.choice(['restore'] * 13 + ['same'] * 4 + ['unchanged'] * 3)
+    if mode == 'restore' and not cands:
+        mode = 'same'
+    if mode == 'restore':
+        for f in rng.sample(sorted(cands), rng.randrange(1, len(cands) + 1)):
+            m, c = rng.choice(cands[f])
+            if ck == 'ts':
+                if cur[f][1] == c and rng.random() < 0.5:
+                    touch(f, m); how = 'touch-old-mtime'
+                else:
+                    put(f, c, 'at', m); how = 'old-content-old-mtime'
+            else:
+                how = rng.choice(['old-content-fresh-mtime', 'old-content-old-mtime', 'old-content-other-mtime'])
+                if how == 'old-content-fresh-mtime':
+                    put(f, c, 'clock')
+                elif how == 'old-content-old-mtime':
+                    put(f, c, 'at', m)
+                else:
+                    put(f, c, 'at', fresh_m())
+            out.count('flip-restore:%s:%s' % (ck, how))
+    elif mode == 'same':
+        for f in rng.sample(fds, rng.randrange(1, len(fds) + 1)):
+            m, c = lastsn[f]
+            if ck == 'md5':
+                how = rng.choice(['rewrite-same-content', 'touch', 'other-then-same-content'])
+                if how == 'touch':
+                    touch(f, None if rng.random() < 0.5 else fresh_m())
+                else:
+                    if how == 'other-then-same-content':
+                        put(f, rng.choice([x for x in CONTENT if x != c]), 'clock')
+                    put(f, c, rng.choice(['clock', 'at']), fresh_m())
+            else:
+                how = 'other-then-back-with-mtime'
+                put(f, rng.choice([x for x in CONTENT if x != c]), 'clock')
+                put(f, c, 'at', m)
+            out.count('flip-same:%s:%s' % (ck, how))
+    out.count('flip-final:%s' % mode)
+    out.count('flip-item:%s' % kind)
+    if e2e:
+        h.append(('Run', False, [(t, False)]))
+        h.append(('Run', False, [(t, False)]))
+    else:
+        if rng.random() < 0.2:
+            h.append(('Reopen',))
+        h.append(('Check', t))
+        if rng.random() < 0.3:
+            h.append(('CheckLog', t))
+    return h
+
+
+def shrink(ctx, backend, history, shape, c04, runner=None, budget=400):
+    """greedy one-operation-at-a-time shrinking of a history that makes an oracle speak: keeps a removal when
+    the same oracle still reports the same shape on that backend.  Histories that stop being FS-fresh silence the oracle, so they
+    are never kept."""
+    runner = runner or run_history
+
+    def fails(h):
+        o = Outcome(); o.c04_violations = []
+        try:
+            runner(ctx, backend, h, o)
+        except Exception:
+            return False
+        return any(v['shape'] == shape for v in (o.c04_violations if c04 else o.violations))
+    h = list(history)
+    progress = True
+    while progress and budget > 0:
+        progress = False
+        i = len(h) - 1
+        while i >= 0 and budget > 0:
+            cand = h[:i] + h[i + 1:]
+            budget -= 1
+            if fails(cand):
+                h = cand; progress = True
+            i -= 1
+    # then the definitions: drop single uptodate items / targets / values of single SetDef operations
+    for i in range(len(h)):
+        for field in ('uptodate', 'targets', 'values'):
+            j = len(h[i][2][field]) - 1 if h[i][0] == 'SetDef' else -1
+            while j >= 0 and budget > 0:
+                d = dict(h[i][2]); d[field] = d[field][:j] + d[field][j + 1:]
+                cand = h[:i] + [('SetDef', h[i][1], d)] + h[i + 1:]
+                budget -= 1
+                if fails(cand):
+                    h = cand
+                j -= 1
+    return h
+
+
+def shrink_findings(ctx, out, c03=True, c04=True):
+    """the first finding of each shape gets a shrunk history (the generated one is kept next to it)"""
+    for c04, lst in [(False, out.violations)] * c03 + [(True, out.c04_violations)] * c04:
+        done = set()
+        for v in lst:
+            case = v.get('case', {})
+            if v['shape'] in done or 'history' not in case or 'unshrunk_history' in case:
+                continue
+            done.add(v['shape'])
+            e2e = any(o[0] in ('Run', 'Forget') for o in case['history'])
+            try:
+                small = shrink(ctx, case['backend'], case['history'], v['shape'], c04, run_e2e if e2e else None, 120 if e2e else 400)
+            except Exception:
+                continue
+            case['unshrunk_history'] = case['history']
+            case['history'] = small
+            case['history_coq'] = None if e2e else [op_coq(o) if o[0] != 'Reopen' else 'Reopen' for o in small]
+
+
 def classify(history, obs):
     """non-trivial = some Check/CheckLog of a task happens after a SaveOk/ResetDep of that task"""
     saved = set()
@@ -854,6 +1122,8 @@ def explore(ctx, out):
         if i % 3 != 0:          # two thirds of the histories get arbitrary (older / newer / re-used) mtimes
             h = vary_mtimes(rng, h, same, out)
         histories.append(('random-notfresh' if same else 'random', h))
+    for i in range(ctx.n(96, 720)):      # family 'utd-flip': every flipping item kind x both checkers, round-robin
+        histories.append(('utd-flip', gen_flip(rng, ('md5', 'ts')[i % 2], out, kind=FLIP_KINDS[(i // 2) % len(FLIP_KINDS)])))
     cases, verdicts = [], {}
     for hi, (kind, h) in enumerate(histories):
         h = fix_orders(ctx, h)
@@ -879,7 +1149,7 @@ def explore(ctx, out):
             out.count('verdict:%d' % st)
         if classify(h, ob):
             out.nontrivial.add(hkey(h))
-        if hi in (0, 1, len(scripted()) + 1):
+        if hi in (0, 1, len(scripted()) + 1, len(scripted()) + n):     # two scripted, one random, one utd-flip
             out.samples.append(dict(history=[op_coq(o) if o[0] != 'Reopen' else 'Reopen' for o in h], observed=ob))
     out.evaluations = 3 * len(histories)
     bad = common.compare_with_model(ctx, PRE, cases, tag='c03')
@@ -1186,10 +1456,15 @@ def explore_e2e(ctx, out):
     rng = ctx.rng
     cases = []
     n = ctx.n(36, 300)
-    for i in range(n):
-        h = gen_e2e(rng, rng.randrange(3, ctx.n(8, 14) + 1))
-        if i % 3 != 0:
-            h = vary_mtimes(rng, h, False, out)
+    nflip = ctx.n(18, 120)               # family 'utd-flip' through DoitMain: 3 backends x 2 checkers, round-robin
+    for i in range(n + nflip):
+        if i < n:
+            h = gen_e2e(rng, rng.randrange(3, ctx.n(8, 14) + 1))
+            if i % 3 != 0:
+                h = vary_mtimes(rng, h, False, out)
+        else:
+            h = gen_flip(rng, ('md5', 'ts')[(i // 3) % 2], out, e2e=True)
+            out.count('e2e:utd-flip')
         h = fix_orders(ctx, h)
         b = ('json', 'dbm', 'sqlite')[i % 3]
         try:
@@ -1214,9 +1489,13 @@ def explore_e2e(ctx, out):
 RULE = ('scripted histories (dep removed/re-added, failed run between edits, checker switch with early exits, reset-dep, '
         'same-content rewrite, same-mtime rewrite, value-savers) + random histories over the full alphabet (prologue + <=8 quick / <=14 '
         'thorough operations, 3 tasks, 3 files, 5 contents of sizes 4,4,2,4,0, both checkers), each on JsonDB, DbmDB and SqliteDB; '
+        'plus the family utd-flip (file deps + an uptodate item -- config_changed / bool / callable / command / run_once / result_dep -- that is '
+        'false in a run that follows an edit of a file dep, then the file put back to a version an EARLIER successful execution saw, or '
+        'rewritten in a way the checker calls unmodified, or left alone; every item kind x both checkers x 3 backends); '
         'non-trivial = distinct history in which a task is checked after a SaveOk/ResetDep of that task; plus an end-to-end sample: run-level '
         'histories (doit run --continue [-a] / forget / ignore / reset-dep command lines + file operations) through DoitMain in-process '
-        'with a recording reporter, compared with run_task of History.v (each e2e history counts as non-trivial)')
+        'with a recording reporter, compared with run_task of History.v (each e2e history counts as non-trivial; random + utd-flip '
+        'histories); the first oracle finding of each shape is shrunk (greedy operation removal) before it is reported')
 
 
 def run(ctx):
@@ -1224,6 +1503,7 @@ def run(ctx):
     out.rule = RULE
     explore(ctx, out)
     explore_e2e(ctx, out)
+    shrink_findings(ctx, out, c04=False)
     out.extra['c04_oracle_findings_seen_here'] = len(out.c04_violations)
     out.assumptions = ['FS-fresh: a write never leaves the mtime unchanged (needed by the md5 "same mtime: keep the old state" optimisation; '
                        'C03_md5_same_mtime_refuted shows it cannot be dropped)',
